@@ -10,6 +10,7 @@ import ChalkModel.OpsAggregate
 import ChalkModel.OpsSem
 import ChalkModel.OpsInPlace
 import ChalkModel.OpsCoherence
+import ChalkModel.OpsCanon
 
 namespace Chalk
 open Sexp
@@ -17,6 +18,8 @@ open Sexp
 def badOp : Sexp := .atom "bad-op"
 
 def opsIR : Sexp → Option Sexp
+  -- a case evaluated on the implementation only (no model computation): acknowledged
+  | .list (.atom "note" :: _) => some (.atom "noted")
   | .list [.atom "flags", t] => do
       let t ← Ty.ofSexp? t
       some (.list [.atom "ok", sNat (Flags.toBits t.computeFlags)])
@@ -53,7 +56,7 @@ def opsIR : Sexp → Option Sexp
 
 /-- all op tables; add new ones at the end of this list -/
 def allOps : List (Sexp → Option Sexp) :=
-  [opsIR, opsMatch, opsAggregate, opsInPlace, opsCoherence, Chalk.Sem.opsSem]
+  [opsIR, opsMatch, opsAggregate, opsInPlace, opsCoherence, Chalk.Sem.opsSem, opsCanon]
 
 def dispatch (req : Sexp) : Sexp :=
   match allOps.findSome? (fun f => f req) with
